@@ -31,11 +31,12 @@ func (c02) Batches(tier string, seed uint64) []core.Batch {
 	b := spread("triples", 16, 0)
 	b = append(b, spread("sort", 8, tierN(tier, 40, 400))...)
 	b = append(b, core.Batch{Name: "volume", N: tierN(tier, 1_000_000, 12_000_000)}) // one case, one process: see volume.go
+	b = append(b, core.Batch{Name: "sortmix", N: tierN(tier, 1600, 8000)})              // 8 goroutines sort their own (disjoint) slices at once
 	return append(b, conc(tierN(tier, 6, 40), "sort")...)
 }
 
 func (c02) Mandatory(tier string) []string {
-	m := []string{"equiv-textually-different-pair", "sorted-slices", "sort-equivalent-runs", "volume:pairs-compared-in-one-process"}
+	m := []string{"equiv-textually-different-pair", "sorted-slices", "sort-equivalent-runs", "volume:pairs-compared-in-one-process", "conc:disjoint-slices-sorted-by-8-goroutines-at-once"}
 	for _, a := range []int{-1, 0, 1} {
 		for _, b := range []int{-1, 0, 1} {
 			for _, c := range []int{-1, 0, 1} {
@@ -125,6 +126,10 @@ func (p c02) RunBatch(t *core.T, b core.Batch) {
 		return
 	}
 	switch b.Name {
+	case "sortmix":
+		in := volInput(t.Rand("sortmix").U64(), b.N)
+		vc, _ := volDecode(in)
+		t.Case("sortmix", in, func(c *core.C) { sortMix(c, t, vc) })
 	case "volume":
 		in := volInput(t.Rand("volume").U64(), b.N)
 		vc, _ := volDecode(in)
@@ -301,6 +306,10 @@ func bucket(n int) int {
 
 func (p c02) RunCase(t *core.T, kind string, input []byte) {
 	switch kind {
+	case "sortmix":
+		if vc, ok := volDecode(input); ok {
+			t.Case(kind, input, func(c *core.C) { sortMix(c, t, vc) })
+		}
 	case "volume":
 		if vc, ok := volDecode(input); ok {
 			t.Case(kind, input, func(c *core.C) { volumeCompare(c, t, vc, false) })
